@@ -7,6 +7,7 @@ import (
 	"runtime"
 	"strings"
 	"time"
+	"unsafe"
 
 	"github.com/cloudwego/dynamicgo/conv"
 	"github.com/cloudwego/dynamicgo/conv/j2p"
@@ -59,6 +60,77 @@ func c06Call(cs *h.Case, t c06Target, in []byte) {
 	}
 	cs.Cover("call_" + t.name)
 	cs.CoverN("calls", 1)
+}
+
+// c06Steps drives the single-step accessors of a container node and reads every node they hand back; a
+// node that is not an error must be a sub-slice of the input.
+func c06Steps(cs *h.Case, t thrift.Type, x *tref.Val, in []byte, gopts *generic.Options) {
+	n := generic.NewNode(t, in)
+	inside := func(api string, e generic.Node) {
+		if e.IsError() {
+			cs.CoverN("step_errors", 1)
+			return
+		}
+		cs.CoverN("step_nodes", 1)
+		raw := e.Raw()
+		if len(raw) > 0 && len(in) > 0 {
+			p := uintptr(unsafe.Pointer(&raw[0]))
+			base := uintptr(unsafe.Pointer(&in[0]))
+			if p < base || p+uintptr(len(raw)) > base+uintptr(len(in)) {
+				cs.Viol("escape:"+api, "node-off", int64(p)-int64(base), "node-len", len(raw), "input-len", len(in))
+				return
+			}
+		} else if len(raw) > 0 {
+			cs.Viol("escape:"+api, "node-len", len(raw), "input-len", 0)
+			return
+		}
+		e.Int()
+		e.Bool()
+		e.Byte()
+		e.Float64()
+		e.String()
+		e.Binary()
+		e.Interface(gopts)
+	}
+	switch t {
+	case thrift.LIST, thrift.SET:
+		for i := -1; i <= len(x.L)+2 && i < 12; i++ {
+			inside("Node.Index", n.Index(i))
+		}
+		ins := make([]generic.PathNode, 0, 4)
+		for i := 0; i < 4; i++ {
+			ins = append(ins, generic.PathNode{Path: generic.NewPathIndex(i)})
+		}
+		if n.Indexes(ins, gopts) == nil {
+			for _, e := range ins {
+				inside("Node.Indexes", e.Node)
+			}
+		}
+		n.List(gopts)
+	case thrift.MAP:
+		var keys []generic.PathNode
+		for _, k := range x.K {
+			switch k.T {
+			case tref.STRING:
+				inside("Node.GetByStr", n.GetByStr(string(k.S)))
+				keys = append(keys, generic.PathNode{Path: generic.NewPathStrKey(string(k.S))})
+			case tref.BYTE, tref.I16, tref.I32, tref.I64:
+				inside("Node.GetByInt", n.GetByInt(int(k.I)))
+				keys = append(keys, generic.PathNode{Path: generic.NewPathIntKey(int(k.I))})
+			}
+		}
+		inside("Node.GetByStr", n.GetByStr("no-such-key"))
+		inside("Node.GetByInt", n.GetByInt(123456))
+		if len(keys) > 0 && n.Gets(keys, gopts) == nil {
+			for _, e := range keys {
+				inside("Node.Gets", e.Node)
+			}
+		}
+		n.StrMap(gopts)
+		n.IntMap(gopts)
+		n.InterfaceMap(gopts)
+	}
+	n.Interface(gopts)
 }
 
 // ---- mutations ----------------------------------------------------------------------------------------
@@ -419,6 +491,55 @@ func runC06(c *h.Ctx) {
 			cs.Cover("mut_" + m.class)
 		}
 		cs.Distinct(fmt.Sprintf("th-%d-%s", len(b)/8, shapeKey(v)[:min(len(shapeKey(v)), 12)]))
+	})
+
+	// ---- Thrift containers as root nodes: single-step accessors (Index / GetByStr / GetByInt / bulk) on
+	// truncated and count-substituted lists, sets and maps; every node handed back must lie inside the input
+	c.Run("thrift-containers", c.N(1500, 60000), func(cs *h.Case) {
+		sc := gen.GenSchema(cs.R, gen.Cfg{MaxDepth: 2, MaxFields: 6, StructKeys: cs.R.Chance(20)})
+		root := structType(sc.Root)
+		v := gen.GenVal(cs.R, root, gen.ValCfg{MaxElems: 5, MaxStr: 12, NonFinite: true}, 0)
+		var conts []*tref.Val
+		tref.Walk(v, func(x *tref.Val, d int) {
+			if x.T == tref.LIST || x.T == tref.SET || x.T == tref.MAP {
+				conts = append(conts, x)
+			}
+		})
+		if len(conts) == 0 {
+			return
+		}
+		gopts := &generic.Options{UseNativeSkip: cs.R.Bool(), MapStructById: cs.R.Bool()}
+		for k := 0; k < 2; k++ {
+			x := conts[cs.R.Intn(len(conts))].Clone()
+			b := tref.Encode(x)
+			cs.Info("container", x.String())
+			cntOff := 1
+			if x.T == tref.MAP {
+				cntOff = 2
+			}
+			var muts []c06Mut
+			for i := 0; i <= len(b) && i < 120; i++ {
+				muts = append(muts, c06Mut{"cont-truncate-all", append([]byte{}, b[:i]...)})
+			}
+			n := len(x.L)
+			for _, c := range []int{n + 1, n + 2, 2*n + 1, len(b) - cntOff - 4, len(b), 1 << 20, -1} {
+				if c != n {
+					muts = append(muts, c06Mut{"cont-count", put32(b, cntOff, uint32(c))})
+				}
+			}
+			for _, et := range []byte{2, 3, 4, 6, 8, 10, 11, 12, 13, 15} {
+				o := append([]byte{}, b...)
+				o[cs.R.Intn(cntOff)] = et
+				muts = append(muts, c06Mut{"cont-etype", o})
+			}
+			t := c06Target{"thrift.generic.Node.step-accessors", func(in []byte) { c06Steps(cs, thrift.Type(x.T), x, in, gopts) }}
+			for _, m := range muts {
+				cs.Info("mutation", m.class)
+				c06Call(cs, t, m.b)
+				cs.Cover("mut_" + m.class)
+			}
+			cs.Distinct(fmt.Sprintf("cont-%s-%s-%s", tref.TypeName(x.T), tref.TypeName(x.KT), tref.TypeName(x.ET)))
+		}
 	})
 
 	// ---- Protobuf messages
